@@ -16,8 +16,11 @@ static void check_case(int d, const std::vector<double>& E, double t, const Alph
   const ref::Basis& B = ref::basis(d);
   SU_vector H = mkvec(d, B.proj(ref::diag(E)));
   double Emax = 0; for (double e : E) Emax = std::max(Emax, std::fabs(e));
-  std::vector<double> buf(d * (d - 1));
-  H.PrepareEvolve(buf.data(), t);
+  // the caller's buffer has a history: PrepareEvolve must overwrite every entry whatever it held before
+  std::vector<double> buf(d * (d - 1), 0.73), buf2(d * (d - 1), -5.5);
+  H.PrepareEvolve(buf.data(), t); H.PrepareEvolve(buf2.data(), t);
+  count("evaluations");
+  if (buf != buf2) violation("PrepareEvolve(buf,t):result-depends-on-previous-buffer-content:d=" + std::to_string(d), J().i("d", d).arr("spectrum", E).num("t", t).arr("buffer_prefilled_0.73", buf).arr("buffer_prefilled_-5.5", buf2).done());
   for (size_t ai = 0; ai < al.vecs.size(); ai++) {
     const std::vector<double>& a = al.vecs[ai];
     count("evaluations");
